@@ -16,9 +16,12 @@ package vm
 
 // Run-time helpers as seen from VM.Run: pure functions of their arguments
 // that may fail (panic). Their value contracts are the C14 obligations.
-//@ func vm.equal
+//@ func vm.equal returns r
 //@   pure
 //@   panics maybe
+//@   property C15
+//@   ensures[int-cells] isint(a) && isint(b) ==> r == boolv(intof(a) == intof(b))
+//@   ensures[string-cells] isstr(a) && isstr(b) ==> r == boolv(strof(a) == strof(b))
 //@ func vm.less
 //@   pure
 //@   panics maybe
@@ -330,6 +333,8 @@ package vm
 //@   case OpEqual: ensures[value] ts(1) == res("vm.equal", hs(2), hs(1))
 //@   case OpEqualInt: ensures[value] ts(1) == boolv(intof(hs(2)) == intof(hs(1)))
 //@   case OpEqualString: ensures[value] ts(1) == boolv(strof(hs(2)) == strof(hs(1)))
+//@   case OpEqualInt: ensures[operand-type] isint(hs(1)) && isint(hs(2))
+//@   case OpEqualString: ensures[operand-type] isstr(hs(1)) && isstr(hs(2))
 //@   case OpIn: ensures[value] ts(1) == boxed(res("vm.in", hs(2), hs(1)))
 //@   case OpLess: ensures[value] ts(1) == res("vm.less", hs(2), hs(1))
 //@   case OpMore: ensures[value] ts(1) == res("vm.more", hs(2), hs(1))
@@ -354,6 +359,8 @@ package vm
 //@   case OpContains: ensures[value] ts(1) == boolv(lib("strings.Contains", strof(hs(2)), strof(hs(1))))
 //@   case OpStartsWith: ensures[value] ts(1) == boolv(lib("strings.HasPrefix", strof(hs(2)), strof(hs(1))))
 //@   case OpEndsWith: ensures[value] ts(1) == boolv(lib("strings.HasSuffix", strof(hs(2)), strof(hs(1))))
+//@   case OpMatches: ensures[value] ts(1) == boolv(lib("regexp.MatchString", strof(hs(1)), strof(hs(2))))
+//@   case OpMatchesConst: ensures[value] ts(1) == boolv(lib("(*regexp.Regexp).MatchString", ptrof(carg(0)), strof(hs(1))))
 //@   case OpJump: ensures[unchanged] len(vm.stack) == head(len(vm.stack))
 //@   case OpJumpIfTrue: ensures[taken] boolof(hs(1)) ==> vm.ip == head(vm.ip) + 3 + off(0)
 //@   case OpJumpIfTrue: ensures[not-taken] !boolof(hs(1)) ==> vm.ip == head(vm.ip) + 3
